@@ -25,7 +25,7 @@ ASSUMPTIONS = [
 ]
 EXHAUSTIVE = {"flag": True, "scope": "all slices / indices / masks in the stated ranges on lengths 0..5 (element values sampled)"}
 ANCHOR_FUNCS = ["vector:Vector.__getitem__", "vector:Vector._elementwise_compare", "table:Table.__getitem__", "vector:Vector.copy"]
-REQUIRED_STRATA = {"recompute": 200, "slice": 10000, "index": 60, "mask": 200, "compare": 300, "table-rows": 200, "table-commute": 200, "table-missing": 20}
+REQUIRED_STRATA = {"rows-held": 100, "recompute": 200, "slice": 10000, "index": 60, "mask": 200, "compare": 300, "table-rows": 200, "table-commute": 200, "table-missing": 20}
 
 STARTS = [None] + list(range(-7, 8))
 STEPS = [None, 1, -1, 2, -2, 3, -3, 7, -7]
@@ -276,6 +276,120 @@ def gen_rows(rng, n, allow_wrong=False):
 	return ("mask", bits, rng.choice(["vector", "list"]))
 
 
+def run_rows_held(chk, spec):
+	"""t[i] is the i-th row: several rows obtained one after the other and read afterwards (after further reads of the table) are still their rows"""
+	ts = spec["table"]
+	t = Table([Vector(list(c), name=n) for c, n in zip(ts["cols"], ts["names"])])
+	n = len(ts["cols"][0])
+	model = [tuple(c[i] for c in ts["cols"]) for i in range(n)]
+	idxs = spec["idxs"]
+	o = call(lambda: [t[i] for i in idxs])
+	chk.judged("rows-held", ("rows-held", n, len(idxs), spec["touch"]))
+	if not o.ok:
+		chk.fail("t[i] is the i-th row", f"row-index/raises/{type(o.exc).__name__}", f"{spec!r} raised {o!r}")
+		return
+	rows = o.value
+	if spec["touch"] == "shape":
+		t.shape
+	elif spec["touch"] == "cell":
+		t[0, 0]
+	elif spec["touch"] == "iterate":
+		for _ in t:
+			pass
+	elif spec["touch"] == "other-row":
+		t[(idxs[0] + 1) % n]
+	for i, r in zip(idxs, rows):
+		got = tuple(r)
+		if not M.same_list(got, model[i]):
+			chk.fail("t[i] is the i-th row (also when it is read after other rows were obtained)", f"row-index/held-row-changed/{spec['touch']}",
+				f"{spec!r}: the row obtained as t[{i}] now reads {got!r}, the table's row {i} is {model[i]!r}")
+			return
+
+
+def nullable_none_free(vals, how):
+	"""a vector that holds no None at the moment but whose dtype is nullable"""
+	if how == "was-none":
+		v = Vector(list(vals))
+		v[0] = None
+		v[0] = vals[0]
+		return v
+	if how == "slice":
+		return Vector(list(vals) + [None])[0:len(vals)]
+	if how == "mask":
+		w = Vector(list(vals) + [None])
+		return w[[True] * len(vals) + [False]]
+	return Vector(list(vals))
+
+
+def run_compare_history(chk, spec):
+	"""compare, store a None (or overwrite one), compare again: every comparison is Python's on the values held at that moment"""
+	vals = list(spec["values"])
+	v = call(nullable_none_free, vals, spec["how"])
+	if not v.ok or not M.same_list(list(v.value._underlying), vals):
+		chk.skip("compare-history-build-refused")
+		return
+	v = v.value
+	other = spec["other"]
+	chk.judged("compare", ("cmp-history", spec["how"], spec["opname"], type(other).__name__, tuple(spec["writes"])))
+	cur = list(vals)
+	for step, (pos, val) in enumerate([(None, None)] + [tuple(w) for w in spec["writes"]]):
+		if pos is not None:
+			w = call(v.__setitem__, pos, val)
+			if not w.ok:
+				chk.skip("compare-history-write-refused")
+				return
+			cur[pos] = val
+		for opname in (spec["opname"], "ne"):
+			form = "vl" if isinstance(other, list) else "vs"
+			exp = cmp_expected({"opname": opname, "form": form, "a": cur, "b": other})
+			if exp is None:
+				continue
+			op = CMP_OPS[opname]
+			o = call(lambda: op(v, Vector(list(other)) if isinstance(other, list) else other))
+			if not o.ok:
+				chk.fail("comparison is computed elementwise by Python's comparison (False at None)", f"compare/raises-after-writes/{opname}/{type(o.exc).__name__}",
+					f"{spec!r}: after {step} writes the vector holds {cur!r}; {opname} raised {o!r}, expected {exp}")
+				return
+			got = list(o.value._underlying)
+			if not M.same_list(got, exp):
+				chk.fail("comparison is computed elementwise by Python's comparison (False at None)", f"compare/value-after-writes/{opname}",
+					f"{spec!r}: after {step} writes the vector holds {cur!r}; {opname} gave {got}, python {exp}")
+				return
+
+
+def run_bigmask(chk, spec):
+	"""more than 1000 elements, masks with 0 / 1 / 2 / many True positions"""
+	n, kind, true_at, how = spec["n"], spec["kind"], spec["true_at"], spec["as"]
+	gen = {"int": lambda i: i * 7 % 1013, "str": lambda i: f"s{i % 97}", "float": lambda i: i / 4.0, "date": lambda i: V.D0.replace(day=1 + i % 28)}[kind]
+	vals = [gen(i) for i in range(n)]
+	bits = [False] * n
+	for k in true_at:
+		bits[k % n] = True
+	exp = [x for x, m in zip(vals, bits) if m]
+	chk.judged("mask", ("bigmask", n > 1000, kind, min(len(true_at), 3), how, spec["target"]))
+	if spec["target"] == "vector":
+		v = Vector(list(vals), name="nm")
+		o = call(lambda: v[Vector(list(bits)) if how == "vector" else list(bits)])
+		if not o.ok:
+			chk.fail("v[mask] keeps the True positions", f"mask/raises/{how}/{type(o.exc).__name__}", f"{n}-element {kind} vector, mask True at {true_at!r} ({how}) raised {o!r}")
+			return
+		check_selection(chk, "v[mask]", f"mask/{how}", v, o.value, exp, {"n": n, "kind": kind, "true_at": true_at, "as": how})
+	else:
+		t = Table([Vector(list(vals), name="a"), Vector(list(range(n)), name="id")])
+		o = call(lambda: t[Vector(list(bits)) if how == "vector" else list(bits)])
+		if not o.ok:
+			chk.fail("a row mask keeps the True rows of every column", f"table-rows/raises/mask/{type(o.exc).__name__}", f"{n}-row table, mask True at {true_at!r} ({how}) raised {o!r}")
+			return
+		r = o.value
+		cells = [list(c._underlying) for c in r._underlying] if isinstance(r, Table) else None
+		ids = [i for i, m in enumerate(bits) if m]
+		if cells is None or (exp and (len(cells) != 2 or not M.same_list(cells[0], exp) or not M.same_list(cells[1], ids))):
+			chk.fail("a row mask keeps the True rows of every column", "table-rows/wrong-cells/mask", f"{n}-row table, mask True at {true_at!r} ({how}): {short(cells, 160)} vs {short([exp, ids], 160)}")
+
+
+RUNNERS.update({"rows_held": run_rows_held, "compare_history": run_compare_history, "bigmask": run_bigmask})
+
+
 def run(chk):
 	recompute.add_cases(chk, "C07")
 	rng = chk.rng
@@ -331,6 +445,42 @@ def run(chk):
 						a, b = list(base), list(base)
 						a[pos], b[pos] = x, y
 						chk.case("compare", {"op": "arith", "opname": opname, "form": form, "a": a, "b": b, "ka": "near-equal", "kb": type(x).__name__}, "compare-near-equal")
+	# float columns against ints that no float represents exactly (Python compares these exactly)
+	B = 2 ** 53
+	for opname in CMP_OPS:
+		for a in ([float(B), 1.5, -float(B)], [float(B)], [float(B), None], [1e308, -1e308, 0.0]):
+			for b in (B + 1, -B - 1, B, 10 ** 400, -(10 ** 400), B + 2):
+				for form in ("vs", "sv"):
+					chk.case("compare", {"op": "arith", "opname": opname, "form": form, "a": a, "b": b, "ka": "float", "kb": "bigint"}, "compare-bigint")
+			for form in ("vv", "vl", "lv"):
+				chk.case("compare", {"op": "arith", "opname": opname, "form": form, "a": a, "b": [rng.choice([B + 1, -B - 1, 10 ** 400]) for _ in a], "ka": "float", "kb": "bigint"}, "compare-bigint")
+	# compare - write - compare histories on nullable vectors that hold no None at first
+	for _ in range(250 if chk.quick() else 1500):
+		kind = rng.choice(["int", "float", "str", "date"])
+		n = rng.choice([1, 2, 3, 4])
+		vals = [rng.choice(ARITH_VALUES[kind]) for _ in range(n)]
+		writes = []
+		for _k in range(rng.choice([1, 2, 3])):
+			writes.append((rng.randrange(n), rng.choice([None, None, rng.choice(ARITH_VALUES[kind])])))
+		other = rng.choice(ARITH_VALUES[kind]) if rng.random() < 0.5 else [rng.choice(ARITH_VALUES[kind]) for _ in range(n)]
+		chk.case("compare_history", {"values": vals, "how": rng.choice(["was-none", "slice", "mask", "plain"]), "opname": rng.choice(list(CMP_OPS)), "other": other, "writes": writes}, "compare-history")
+	# rows that are kept while the table is used again
+	for _ in range(150 if chk.quick() else 800):
+		ts = gen_table(rng, nrows=rng.choice([2, 3, 4]))
+		n = len(ts["cols"][0])
+		idxs = [rng.randrange(n) for _ in range(rng.choice([2, 2, 3]))]
+		if len(set(idxs)) == 1:
+			idxs[0] = (idxs[0] + 1) % n
+		chk.case("rows_held", {"table": ts, "idxs": idxs, "touch": rng.choice(["nothing", "shape", "cell", "iterate", "other-row"])}, "rows-held")
+	# long vectors / tables (library fast paths by size)
+	for n in ((1001, 1500) if chk.quick() else (1000, 1001, 1002, 1500, 4000)):
+		for kind in ("int", "str", "float", "date"):
+			for true_at in ([], [rng.randrange(n)], [0], [n - 1], [3, 700], sorted(rng.sample(range(n), 40))):
+				for how in ("vector", "list"):
+					for target in ("vector", "table"):
+						if chk.quick() and target == "table" and kind in ("float", "date"):
+							continue
+						chk.case("bigmask", {"n": n, "kind": kind, "true_at": true_at, "as": how, "target": target}, "bigmask")
 	# tables
 	nt = 600 if chk.quick() else 3000
 	for _ in range(nt):
